@@ -58,12 +58,13 @@ func (r *Runner) Restart() {
 // Start is non-blockig and runs in a go routine. The provided context can be used to manage the
 // lifecycle. Stop() will also terminate the runner.
 func (r *Runner) Start(ctx context.Context) {
-	defer close(r.stopped)
-
 	schedulesCtx, schedulesCtxCancel := context.WithCancel(ctx)
 	r.cancel = schedulesCtxCancel
 
 	go func() {
+		// signal Stop only once the runner can no longer invoke the function
+		defer close(r.stopped)
+
 		for {
 			select {
 			case <-r.restart:
